@@ -132,6 +132,11 @@ pub struct FdCase {
     pub drv: Drv,
     pub objects: Vec<ObjKind>,
     pub steps: Vec<Step>,
+    /// a Close step on an object that already has a waiting close() really calls close() again
+    /// (false: it drops the handle instead — the generator's setting while the finding
+    /// "close-lost-wakeup/after-second-close" is listed as known)
+    #[serde(default)]
+    pub second_close: bool,
 }
 
 // ------------------------------------------------------------------------------------------------
@@ -766,7 +771,7 @@ fn run_inner(case: &FdCase, dir: PathBuf) -> Result<(Vec<String>, bool), Outcome
                 if !l.handles.is_empty() {
                     let i = mono_ix(*h, l.handles.len());
                     let second = l.objs[l.handles[i].obj].closer_started;
-                    if second && EXCLUDE_SECOND_CLOSE.load(Ordering::Relaxed) {
+                    if second && !case.second_close {
                         // known finding: a second close() while one is waiting loses the first one's
                         // wake-up; not generated while listed as known — the handle is dropped instead
                         let hd = l.handles.remove(i);
@@ -942,12 +947,16 @@ fn run_inner(case: &FdCase, dir: PathBuf) -> Result<(Vec<String>, bool), Outcome
         // property holds); if that poll makes it progress, the wake-up was lost.
         if !rescued && turn >= 3 && live_ops() == 0 {
             rescued = true;
+            if std::env::var("VERIF_VERBOSE").is_ok() {
+                eprintln!("rescue: turn {turn} closers {:?}", lab.borrow().closers.iter().map(|c| (c.primary, c.result.is_some(), c.flag.0.load(Ordering::SeqCst))).collect::<Vec<_>>());
+            }
             let pending_before = lab.borrow().closers.iter().filter(|c| c.primary && c.result.is_none() && !c.flag.0.load(Ordering::SeqCst)).count();
             if pending_before > 0 {
                 let progressed = lab.borrow_mut().service_closers(&rt, "end phase (redundant poll)", true);
                 if progressed {
+                    let second = lab.borrow().labels.iter().any(|l| l == "second-close");
                     lab.borrow_mut().violate(
-                        "close-lost-wakeup",
+                        if second { "close-lost-wakeup/after-second-close" } else { "close-lost-wakeup" },
                         "close() stayed pending although every other handle was dropped and no operation was alive any more; it progressed only when the harness polled it again without having been woken".into(),
                     );
                 }
@@ -959,6 +968,25 @@ fn run_inner(case: &FdCase, dir: PathBuf) -> Result<(Vec<String>, bool), Outcome
             drop(rt);
             return Err(Outcome::inconclusive(format!("watchdog: close() pending after every other holder was released (live ops {}, rescued {rescued})", live_ops())));
         }
+    }
+    let found = lab.borrow_mut().violation.take();
+    if let Some((sig, detail)) = found {
+        let closers = std::mem::take(&mut lab.borrow_mut().closers);
+        rt.enter(|| drop(closers));
+        let (sentinels, harness_fds) = {
+            let mut l = lab.borrow_mut();
+            (std::mem::take(&mut l.sentinels), std::mem::take(&mut l.harness_fds))
+        };
+        drop(rt);
+        for (fd, id) in sentinels {
+            if ident(fd) == Some(id) {
+                unsafe { libc::close(fd) };
+            }
+        }
+        for fd in harness_fds {
+            unsafe { libc::close(fd) };
+        }
+        return Err(Outcome::violation(sig, detail));
     }
     lab.borrow_mut().audit("at the end");
     // every operation storage (incl. thread-pool jobs still running) must be gone before the table is judged
@@ -1037,14 +1065,14 @@ fn case_strategy() -> impl Strategy<Value = FdCase> + Clone {
         vec(prop_oneof![Just(ObjKind::File), Just(ObjKind::Pipe), Just(ObjKind::Tcp), Just(ObjKind::Unix)], 1..=2),
         vec(step(), 0..=24),
     )
-        .prop_map(|(drv, objects, steps)| FdCase { drv, objects, steps })
+        .prop_map(|(drv, objects, steps)| FdCase { drv, objects, steps, second_close: !EXCLUDE_SECOND_CLOSE.load(Ordering::Relaxed) })
 }
 
 static EXCLUDE_SECOND_CLOSE: AtomicBool = AtomicBool::new(false);
 
 fn main() {
     let mut s = Session::new();
-    if s.known_signatures("C06").contains("C06/close-lost-wakeup") {
+    if s.known_signatures("C06").contains("C06/close-lost-wakeup/after-second-close") {
         EXCLUDE_SECOND_CLOSE.store(true, Ordering::Relaxed);
     }
     let mut p = Part::new(
@@ -1069,7 +1097,7 @@ fn main() {
     p.regressions = vec![
         (
             "second-close-loses-wakeup",
-            FdCase { drv: Drv::IoUring, objects: vec![ObjKind::File], steps: vec![Step::Clone { h: 0 }, Step::Close { h: 0 }, Step::Close { h: 0 }] },
+            FdCase { drv: Drv::IoUring, objects: vec![ObjKind::File], steps: vec![Step::Clone { h: 0 }, Step::Close { h: 0 }, Step::Close { h: 0 }], second_close: true },
         ),
         (
         "close-waits-for-op",
@@ -1088,6 +1116,7 @@ fn main() {
                 Step::Turn { k: 3 },
                 Step::Produce { what: Produce::Accept { connect_first: true }, cancel_after: Some(2) },
             ],
+            second_close: true,
         },
     )];
     s.run_part(p, case_strategy(), run_fd);
